@@ -188,8 +188,13 @@ Definition vm_discm (d : dir) (op : operand) (name : string) (fwd : bool) : dres
 Definition vm_dnext (d : dir) (op : operand) (fwd : bool) (cur : string) : dresult :=
   or_null (steps fwd (names_by_oper d op) cur).
 
-Definition vm_dnextm (d : dir) (op : operand) (name : string) (fwd : bool) (cur : string) : dresult :=
+(* [gone]: what a step yields once the group / location is no longer listed.  The
+   pinned tree faults; the repaired dnextm (`if name_list is None: result = NULL`)
+   ends the iteration.  The correspondence runs establish which one the tree is. *)
+Definition vm_dnextm_gen (gone : dresult) (d : dir) (op : operand) (name : string) (fwd : bool) (cur : string) : dresult :=
   match set_by_oper d op name with
   | Some l => or_null (steps fwd l cur)
-  | None => DFault
+  | None => gone
   end.
+Definition vm_dnextm := vm_dnextm_gen DFault.
+Definition vm_dnextm_fixed := vm_dnextm_gen DNull.
